@@ -1,7 +1,11 @@
 import H3.Drv.Util
 import H3.Model.ErrCell
 /-! Driver engine `cell` (C05).  Case line:
-    `cell <pce|acc> S1=<err>,.. S2=.. : <label> ..` with labels `D.poll D.pce D.det:<err> D.park S<k>`.
+    `cell <pce|acc|clo|idl> S1=<err>,.. S2=.. : <label> ..` with labels `D.poll D.pce D.det:<err> D.park S<k>`.
+    Modes `clo` / `idl` are the client's driver (`poll_close` called directly / the `wait_idle()`
+    future): there a `D.det:<quic error>` is the transport failing inside the `poll_accept_bi` at
+    the end of the poll and `D.det:I259.0` the transport handing out a server-initiated stream —
+    both are the model's `DOp.bidi` (`H3.ErrCell.clientTail`).
     Model half: the run of `H3.ErrCell` with `registerFirst := sourceRegisterFirst`, printed as
     final observables, `|`, one outcome token per label (`!` = the driver's waker has fired and
     the driver has not been polled since).
@@ -63,6 +67,13 @@ def parseLabel (s : String) : Option TaskId :=
         | some (k+1) => some (.str k)
         | _ => none
       | none => none
+
+/-- modes `clo` / `idl`: the driver is the client's; the detections at the end of its poll go
+    through the tail of `poll_close` -/
+def clientLabel : TaskId → TaskId
+  | .drv (.det (.quic q)) => .drv (.bidi (some q))
+  | .drv (.det (.internal 259 0)) => .drv (.bidi none)
+  | l => l
 
 def parseSpecs : Nat → List String → Option (List (List Err))
   | _, [] => some []
@@ -156,6 +167,10 @@ structure Scan where
   done : List Nat
   winner : Option Err := none
 
+def specBidi : Option QErr → Err
+  | some q => .quic q
+  | none => .internal 0x0103 0
+
 def scanStep (sc : Scan) : TaskId → Scan
   | .drv op =>
     if sc.winner.isSome then sc else
@@ -167,6 +182,10 @@ def scanStep (sc : Scan) : TaskId → Scan
     | .park, .armed => { sc with dpc := .idle }
     | .det e, .started => { sc with winner := some e }
     | .det e, .armed => { sc with winner := some e }
+    -- a client whose transport fails / hands it a server-initiated bidirectional stream
+    -- (RFC 9114 §6.1: H3_STREAM_CREATION_ERROR = 0x0103) at the end of a poll
+    | .bidi r, .started => { sc with winner := some (specBidi r) }
+    | .bidi r, .armed => { sc with winner := some (specBidi r) }
     | _, _ => sc
   | .str i =>
     match sc.mids[i]?, sc.todo[i]? with
@@ -213,12 +232,15 @@ def specLine (specs : List (List Err)) (sched : List TaskId) : String :=
 
 def handle : List String → String
   | "cell" :: mode :: rest =>
-    if mode != "pce" && mode != "acc" then "bad-op" else
+    if mode != "pce" && mode != "acc" && mode != "clo" && mode != "idl" then "bad-op" else
+    let client := mode == "clo" || mode == "idl"
     let (sp, lb) := rest.span (· != ":")
     match lb with
     | ":" :: labels =>
       match parseSpecs 0 sp, labels.mapM parseLabel with
-      | some specs, some sched => modelLine specs sched ++ " ## " ++ specLine specs sched
+      | some specs, some sched0 =>
+        let sched := if client then sched0.map clientLabel else sched0
+        modelLine specs sched ++ " ## " ++ specLine specs sched
       | _, _ => "bad-op"
     | _ => "bad-op"
   | _ => "bad-op"
